@@ -2,9 +2,6 @@ import Monorail.Model.Index
 /-! Decidable oracle for C10, evaluated by the driver on the *implementation's* adjacency. -/
 namespace Monorail
 
-/-- decidable twin of `Within` -/
-def withinB (d p : Path) : Bool := (comps d).isPrefixOf (comps p)
-
 /-- decidable twin of `DependsOn` -/
 def dependsOnB (T U : Target) : Bool :=
   withinB U.path T.path || T.uses.any (fun u => withinB U.path u)
